@@ -19,6 +19,7 @@ EXTRA_PROPS = [
     "NGF.Props.C01Handler",    # handler capture step (objectFilters / parseAndCaptureEvent) over the store model
     "NGF.Props.C01Footprint",  # relevance/watch soundness per dependent kind (footprint frames)
     "NGF.Props.C01Refs",       # b-c06: Service relevance over the pipeline model
+    "NGF.Props.C01Pipeline",   # the store/handler machine over the concrete pipeline model: convergence for all histories
 ]
 
 
@@ -61,6 +62,17 @@ def run(ctx):
         from concurrent.futures import ThreadPoolExecutor
         with ThreadPoolExecutor(max_workers=chunks) as ex:
             runs += list(ex.map(gen, range(chunks)))
+    # pipeline stream: in-fragment histories through the real long-lived controller, replayed by the Lean driver in the
+    # instantiated store machine of NGF.Model.StorePipeline (modelled predicates, no oracle)
+    pn, pmax, pchunks = (40, 14, 1) if ctx.tier == "quick" else (150, 22, 6)
+    def pipe(i):
+        return ctx.harness(["-pipeline", pn, "-seed", ctx.seed * 64 + i, "-maxops", pmax] + wargs)
+    if pchunks == 1:
+        pipe_runs = [pipe(0)]
+    else:
+        from concurrent.futures import ThreadPoolExecutor as _TPE
+        with _TPE(max_workers=pchunks) as ex:
+            pipe_runs = list(ex.map(pipe, range(pchunks)))
     if not getattr(ctx, "harness_ok", False):
         ctx.broken("harness does not build against the current tree", detail="\n".join(ctx.build_errors))
 
@@ -185,6 +197,45 @@ def run(ctx):
             if wdiffs <= 2:
                 ctx.broken(f"Footprint.watchSvc and the real ServicePortsChangedPredicate disagree (impl {o} / model {out})",
                            replay={"update": m})
+    # pipeline stream
+    pipe_in, pipe_skip, pstats = [], collections.Counter(), collections.Counter()
+    for lines in pipe_runs:
+        for l in lines or []:
+            typ, _, rest = l.partition(" ")
+            _, _, body = rest.partition(" ")
+            if typ == "L":
+                pipe_in.append(body)
+            elif typ == "Q":
+                pipe_skip[body.split(" (")[0][:60]] += 1
+            elif typ == "X":
+                inconclusive[body[:80]] += 1
+    pouts = ctx.driver("pipeline", pipe_in)
+    pdiffs = 0
+    for inp, out in zip(pipe_in, pouts):
+        if out.startswith("bad-op"):
+            pdiffs += 1
+            if pdiffs <= 2:
+                ctx.broken(f"pipeline driver could not decode a history ({out[:200]})", replay={"line": inp[:3000]})
+            continue
+        d = json.loads(out)
+        if not d["inFragment"]:
+            pstats["outside_fragment:" + d["why"][:50]] += 1
+            continue
+        pstats["histories_replayed"] += 1
+        for k in ("events", "verdicts", "irrelevant", "cuts", "confs", "rebuilds"):
+            pstats[k] += d[k]
+        if d["errors"]:
+            pstats["not_replayable"] += 1
+        if d["diffs"] or d["echo"]:
+            pdiffs += 1
+            if pdiffs <= 3:
+                what = ("the store machine over the pipeline model (NGF.Model.StorePipeline: modelled relevance predicates, "
+                        "gen/upstreamsOf build) and the real long-lived controller disagree along a history: "
+                        if d["diffs"] else
+                        "the model's applied output is not the build of the current cluster (contradicts pipeline_config_converges): ")
+                ctx.broken(what + "; ".join((d["diffs"] or d["echo"])[:3])[:600],
+                           replay={"pipeline_line": inp[:200000], "driver_output": d,
+                                   "how_to_rerun": "feed 'pipeline_line' to `ngfdriver_C01 pipeline`"})
     if inconclusive:
         ctx.broken(f"harness could not run some histories: {dict(inconclusive)}")
 
@@ -217,6 +268,12 @@ def run(ctx):
         "service_watch_diffs": wdiffs,
         "histories": len(hstats),
         "corpus_histories": len(corpus),
+        # in-fragment histories replayed in the store machine over the pipeline model: events whose MODELLED relevance verdict
+        # was compared with the real predicate's decision, drained points at which applied conf/upstreams/ReferencedServices
+        # of the real long-lived controller were compared with the model's applied output
+        "pipeline_stream": dict(pstats),
+        "pipeline_stream_diffs": pdiffs,
+        "pipeline_histories_not_replayable": dict(pipe_skip),
         # handler layer (objectFilters): events of the two special objects handed to HandleEventBatch, by
         # <Kind>-<u|d>-<fwd|kept>; histories in which the special objects take part in ordinary roles
         "handler_filter_events": {k[len("filter:"):]: v for k, v in sorted(tags.items()) if k.startswith("filter:")},
